@@ -457,7 +457,12 @@ def main(argv=None):
     #    (c) every shape followed by a group of the small alphabet (freshness after any shape)
     jobs.append(dict(kind="mc", tag="mc", workers=4, cfg=write_cfg(
         P("mc_after"), "AllShapes", "SomeShapes" if q else "SimShapes", "NoClauses", [4], 2, False, mc=True)))
+    #    (d) shapes beyond the sizes at which an implementation would switch representation
+    jobs.append(dict(kind="mc", tag="mc", workers=4, cfg=write_cfg(
+        P("mc_large"), "NoShapes", "LargeShapes", "NoClauses", [0, 3], 2, False, mc=True)))
     # 2. exports
+    jobs.append(dict(kind="ex", tag="shapes", cfg=write_cfg(
+        P("ex_large"), "NoShapes", "LargeShapes", "NoClauses", [0, 3], 2, True)))
     #    (a) every shape in scope after update(0) / update(3) (thorough: also after the clause [1,-2])
     for fam, ns in (("ShapesBlock", 1), ("ShapesBip", 1), ("ShapesSmap", 1), ("ShapesMisc", 1),
                     ("ShapesDigraph3", 2 if q else 3)):
@@ -528,7 +533,7 @@ def main(argv=None):
         "scope: blocks with ranges 0..3 and <= 3 dimensions; combinations/permutations/words n <= 4, k <= 3; "
         "every bipartite graph <= 2x3 (edge groups and sparse mappings); every simple graph and every directed "
         "graph (loops allowed, both sort orders) on <= 3 vertices; mappings <= 3x4; binary mappings n <= 3, m <= 5; "
-        "histories of bounded depth; labels are always passed explicitly (one format per group)",
+        "one or two large instances per kind (17-40 per component); histories of bounded depth; labels are always passed explicitly (one format per group)",
         "interpretation: a full index outside the domain, a wrong number of index components and an identifier "
         "outside the group must raise ValueError (documented in BaseVariableGroup.__call__ / to_index); a wildcard "
         "pattern with a fixed component out of range may raise ValueError or match nothing; word-indexed groups "
